@@ -107,6 +107,28 @@ theorem readData_prefix (um : Bool) (pre data tail : Bytes) (m : Nat) (st : Bool
   · exact ⟨Or.inl h1, fun _ => Or.inr h2⟩
   · exact ⟨Or.inr ⟨e, he⟩, fun h => by rw [he] at h; cases h⟩
 
+/-- one segment read through `read_segments` from a prefix: error or exactly the segment -/
+theorem segRead_prefix (pre d tail : Bytes) (m : Nat) (st : Bool) :
+    let r := segRead ⟨(pre ++ d ++ tail).take m, st⟩ pre.length d.length
+    r = .ok d ∨ ∃ e, r = .error e := by
+  intro r
+  simp only [r, segRead]
+  split
+  · right; exact ⟨_, rfl⟩
+  · rename_i b hb
+    split
+    · right; exact ⟨_, rfl⟩
+    · rename_i hl
+      left
+      have hb' := read_ok hb
+      simp only [ne_eq, Decidable.not_not] at hl
+      by_cases hd : d = []
+      · subst hd; simp at hl; rw [hl]
+      · have hn : 0 < d.length := List.length_pos_iff.mpr hd
+        subst hb'
+        obtain ⟨h1, _⟩ := drop_take_len _ m pre.length d.length hl hn
+        rw [h1, List.append_assoc, List.drop_left]; simp
+
 /-- fields returned by a successful header phase on any prefix of a file starting with the header block -/
 theorem header_fields (fmt : VolFmt) (img : Img) (vo : Nat) (rest : Bytes) (single : Bool) (m : Nat)
     (st : Bool) (n off : Nat) (hH : fmt.hdrSize = 16 + img.fill.length) (hd : img.data.length < 2 ^ 64)
